@@ -61,7 +61,9 @@ class mesh_to_mesh_fft(SpaceTransfer):
             fine_hat = np.zeros(self.fine_prob.init[0] // 2 + 1, dtype=np.complex128)
             half_idx = self.coarse_prob.init[0] // 2
             fine_hat[0:half_idx] = coarse_hat[0:half_idx]
-            fine_hat[-1] = coarse_hat[-1]
+            # the coarse Nyquist mode is shared by the modes +/- half_idx of a finer grid (half the weight each),
+            # this keeps the prolongation interpolatory, i.e. restriction after prolongation returns the coarse data
+            fine_hat[half_idx] = coarse_hat[half_idx] if self.ratio == 1 else 0.5 * coarse_hat[half_idx]
             return np.fft.irfft(fine_hat) * self.ratio
 
         if type(G).__name__ == 'mesh':
